@@ -137,7 +137,7 @@ _END = ('ORDER', 'GROUP', 'LIMIT', 'HAVING', 'FOR', 'LOCK', 'UNION')
 
 def where_of(sql):
     """The WHERE clause text of the row-selecting SELECT: of the first CTE when the statement starts with WITH, else of the
-    statement itself."""
+    statement itself, else (no WHERE there) of the only derived table that has one."""
     toks = lex(sql)
     tr = tree(toks)
     if tr and _kw(tr[0], 'WITH'):
@@ -146,6 +146,12 @@ def where_of(sql):
             raise T('where', 'WITH without body')
         tr = body
     idx = [i for i, n in enumerate(tr) if _kw(n, 'WHERE')]
+    if not idx:
+        # the rows are selected inside a derived table:  SELECT .. FROM ( SELECT .. WHERE .. GROUP BY .. ) AS t ..
+        subs = [n for n in tr if isinstance(n, list) and n and _kw(n[0], 'SELECT') and sum(1 for x in n if _kw(x, 'WHERE')) == 1]
+        if len(subs) == 1:
+            tr = subs[0]
+            idx = [i for i, n in enumerate(tr) if _kw(n, 'WHERE')]
     if len(idx) != 1:
         raise T('where', f'{len(idx)} WHERE keywords at the top level of the row-selecting SELECT')
     rest = tr[idx[0] + 1:]
